@@ -216,10 +216,10 @@ func WriteJSON(path string, v any) error {
 func Summarise(prop string, rrs []RuleResult, known *KnownFile) *PropResult {
 	pr := &PropResult{Prop: prop, Rules: rrs}
 	kn := map[string]bool{}
+	// keys start with the rule id and are unique across properties; a rule that is
+	// evaluated under several properties (rules.Includes) reports its listed finding under each
 	for _, k := range known.Known {
-		if k.Property == prop {
-			kn[k.Key] = true
-		}
+		kn[k.Key] = true
 	}
 	for i := range rrs {
 		for j := range rrs[i].Obls {
